@@ -1039,6 +1039,15 @@ Section Proofs.
   Proof.
     intros Hqs Ha Hb. repeat split; [apply psum_add_sound|apply psum_sub_sound|apply psum_scale_sound|apply psum_mul_sound; assumption].
   Qed.
+
+  (* the dense test at the matrix level *)
+  Theorem ds_commute_iff ca cb la lb : length la = length lb ->
+    (ds_commutes la lb = true ->
+       mmul O (dense_matrix O ca la) (dense_matrix O cb lb) = mmul O (dense_matrix O cb lb) (dense_matrix O ca la))
+    /\ (ds_commutes la lb = false ->
+       mmul O (dense_matrix O ca la) (dense_matrix O cb lb)
+       = mscale O (- z1) (mmul O (dense_matrix O cb lb) (dense_matrix O ca la))).
+  Proof. intros H. rewrite (ds_commutes_spec la lb H). apply dense_commute_iff. exact H. Qed.
 End Proofs.
 
 (* ---------- the executable comparison instance Q(i) satisfies the laws the theorems assume ---------- *)
@@ -1049,3 +1058,15 @@ Proof.
       unfold gq_add, gq_mul, gq_sub, gq_opp; simpl; f_equal; ring.
   - simpl. unfold gq_mul, gq_opp. simpl. f_equal; ring.
 Qed.
+
+(* the letter <-> matrix dictionary is the working tree's: cirq.unitary of the gate behind each index (full Laws: the
+   table entries are written with 1/2 and 1/sqrt2 slots that are zero here) *)
+Section LetterMatrix.
+  Context {K : Type} (O : Ops K) (L : Laws O).
+  Add Ring Kring2 : (law_ring O L).
+  Lemma letter_matrix_model p : pauli_mat O p = letter_matrix O (pcode p).
+  Proof.
+    destruct p; cbv -[kadd kmul kopp ksub kconj k0 k1 ki khalf ks2];
+      repeat (apply (f_equal2 cons); [|try reflexivity]); try reflexivity; ring.
+  Qed.
+End LetterMatrix.
